@@ -139,6 +139,13 @@ const ElemTemplateElement*
 ElemFallback::getNextChildElemToExecute(StylesheetExecutionContext& /*executionContext*/,
                                  const ElemTemplateElement*         currentElem) const
 {
+    if (hasDirectTemplate() == true)
+    {
+        // The only child is a call-template that was replaced by its
+        // template: there is no next child.
+        return 0;
+    }
+
     const ElemTemplateElement* previousElement = currentElem;
 
     const ElemTemplateElement* nextElement = currentElem->getNextSiblingElem();
